@@ -224,6 +224,18 @@ def assemble(lines, watchdog=True, wall_limit=None):
     return Outcome("ok", p)
 
 
+def outputs(program):
+    """everything a front end derives from an accepted program: image, listing, symbol table (C13: generating them must
+    not fail either).  -> None, or (exception, site)"""
+    try:
+        program.get_binary_array()
+        [str(x) for x in program.get_statements()]
+        [str(x) for x in program.get_symbol_table()]
+    except Exception as e:  # noqa: BLE001
+        return e, _site(e.__traceback__)
+    return None
+
+
 def stmt_bytes(statement):
     """bytes of one statement, through the real get_binary_array"""
     q = Program()
